@@ -125,7 +125,8 @@ def const_case(r, flavor="plain"):
         if p == "b":
             sums.append("s += a%d as u32;" % q)
         elif p == "r":
-            sums.append("{ let mut i = 0; while i < r%d.len() { s += r%d[i] as u32; i += 1; } }" % (q, q))
+            # (through a slice: the program set's prelude has a hostile `len` for arrays)
+            sums.append("{ let rs: &[_] = &r%d; let mut i = 0; while i < rs.len() { s += rs[i] as u32; i += 1; } }" % q)
     nb = len(r["bound"])
     body = "%s const fn f() -> u32 { %s; let mut s = 0u32; %s s } const V: u32 = f(); format!(\"{}\", V)" % (items, stmt, " ".join(sums))
     return body, str(7 * nb)
